@@ -130,6 +130,19 @@ def generate(rng, tier):
     env = {'listing_seed': rng.randint(0, 99)}
     if rng.random() < 0.3:
         env['pkgroot_on_path'] = rng.choice([0, 1, 2])
+    if rng.random() < 0.08:
+        # a stale development-install link on sys.path (its target does not hold the package), and
+        # doctests that ask whether that package is there
+        env['pkgroot_on_path'] = rng.choice([0, 1, 2])
+        world.setdefault('extra_files', {})['sim_egg.egg-link'] = '/nonexistent/sim_egg_target\n.\n'
+        for dtid, dt, mod in W.iter_doctests(world):
+            if rng.random() < 0.7:
+                base = max(x['i'] for x in dt['steps']) + 1
+                dt['steps'].append({'i': base, 'form': 'directive', 'pts': [], 'ps2': False, 'sep': 'none',
+                                    'dirs': [['+', 'REQUIRES', 'module:sim_egg']]})
+                dt['steps'].append({'i': base + 1, 'form': 'comment', 'pts': [], 'ps2': False, 'sep': 'none'})
+    if rng.random() < 0.1:
+        env['warnings_error'] = True        # the host runs with -W error
     if colored and rng.random() < 0.6:
         env['no_pygments'] = True
     if rng.random() < 0.1:
